@@ -190,7 +190,7 @@ class CallMixin:
         else:
             yield st, V(T.BOOL, z3.Exists(bound, z3.And(guard, body)))
 
-    SPECFORMS = ("old", "implies", "iff", "setof", "ite", "dom", "elems", "forall", "exists", "some", "isnone",
+    SPECFORMS = ("store", "old", "implies", "iff", "setof", "ite", "dom", "elems", "forall", "exists", "some", "isnone",
                  "the", "dict_eq", "subset", "mapof", "tup", "at_entry", "lex_lt", "vals")
 
     def specform(self, nm, n, st, sink):
@@ -285,6 +285,18 @@ class CallMixin:
             elif nm == "dict_eq":
                 a, b = self.unify(vs[0], vs[1], n)
                 yield st1, V(T.BOOL, self.dict_eq(a, b))
+            elif nm == "store":
+                m, k, v = vs
+                if isinstance(m.ty, T.MapT):
+                    yield st1, V(m.ty, z3.Store(m.z, self.coerce(k, m.ty.key, n).z, self.coerce(v, m.ty.val, n).z))
+                elif isinstance(m.ty, T.DictT):
+                    kz = self.coerce(k, m.ty.key, n).z
+                    yield st1, V(m.ty, m.ty.mk(z3.Store(m.ty.dom(m.z), kz, True),
+                                               z3.Store(m.ty.vals(m.z), kz, self.coerce(v, m.ty.val, n).z)))
+                elif isinstance(m.ty, T.SetT):
+                    yield st1, V(m.ty, z3.Store(m.z, self.coerce(k, m.ty.elem, n).z, self.truthy(v)))
+                else:
+                    raise SpecError("store() on " + str(m.ty))
             elif nm == "subset":
                 x = vs[0].ty.elem.fresh("x")
                 yield st1, V(T.BOOL, z3.ForAll([x], z3.Implies(z3.Select(vs[0].z, x), z3.Select(vs[1].z, x))))
@@ -327,9 +339,51 @@ class CallMixin:
                     raise Unsupported(f"missing argument {nm} for {c.key}", n)
                 bound[nm] = dflts[nm]
         out = {}
+        from .engine import FnRef
         for nm in names:
-            out[nm] = self.coerce(bound[nm], c.params[nm], n) if c.params[nm] is not None else bound[nm]
+            pty = c.params[nm]
+            if isinstance(pty, FnRef):
+                out[nm] = bound[nm]
+                self.check_callable_arg(bound[nm], pty, n)
+            elif isinstance(pty, V):
+                out[nm] = bound[nm]
+            else:
+                out[nm] = self.coerce(bound[nm], pty, n) if pty is not None else bound[nm]
         return out
+
+    def check_callable_arg(self, f, fnref, n):
+        """a callable passed for a parameter with an interface contract: a refinement lemma must be registered
+        for it, and the lemma's closure facts are proof obligations right here"""
+        st = self._cur_call_state
+        impl, env = self.impl_of(f, n)
+        if impl == fnref.key:
+            return
+        ent = self.refinements.get((impl, fnref.key))
+        if ent is None:
+            raise Unsupported(f"callable {impl} passed where {fnref.key} is expected: no refinement lemma registered", n)
+        key, closure_requires, names = ent
+        self.called.add(key)
+        for i, r in enumerate(closure_requires):
+            goal = self.spec(r, st, env=env, old=st)
+            self.emit("pre@call", f"{key}#closure{i + 1}", n, st, goal, note=r)
+
+    def impl_of(self, f, n):
+        """-> (implementation contract key, environment of its bound closure variables)"""
+        if f.ty is T.FUN and isinstance(f.z, FunV):
+            fz = f.z
+            if fz.kind == "contract":
+                env = {"self": fz.self_v} if getattr(fz, "self_v", None) is not None else {}
+                return fz.key, env
+            if fz.kind == "partial":
+                k, env = self.impl_of(fz.func, n)
+                env = dict(env)
+                env.update(fz.kwargs)
+                return k, env
+        if f.ty is T.PY:
+            c = self.contract_for_pyobj(f.z)
+            if c is not None:
+                return c.key, {}
+        raise Unsupported("cannot identify the implementation of a callable argument", n)
 
     def defaults_of(self, c):
         if getattr(c, "_defaults", None) is not None:
@@ -428,6 +482,7 @@ class CallMixin:
         lv = self.param_lvalues(c, args, n)
         if st.binder and not (c.returns_expr is not None or c.pure) and st.mode != "spec":
             raise Unsupported(f"call of non-functional {c.key} inside a comprehension / generator body", n)
+        self._cur_call_state = st
         bound = self.bind_params(c, args, kwargs, n)
         env = self.spec_env_for_call(c, bound, st)
         self.stats["calls"] += 1
